@@ -31,6 +31,11 @@ func lessFalse(name string, fn *ssa.Function, left, right func(ssa.Value) bool) 
 		if !ok {
 			return
 		}
+		switch b.Op {
+		case token.LSS, token.LEQ, token.GTR, token.GEQ, token.EQL, token.NEQ:
+		default:
+			return
+		}
 		var op token.Token
 		switch {
 		case left(b.X) && right(b.Y):
